@@ -757,6 +757,9 @@ impl CompactionWorker {
                     file_iterator.next();
                 }
 
+                #[cfg(raindb_verif)]
+                crate::verif_hooks::sched::point("compact:finish");
+
                 Ok(file_iterator)
             },
         );
